@@ -36,6 +36,25 @@ makes the schedules as adversarial as it can:
     and then finish properly, finishers that repeat done/skip/add_measurement
     on the trial they have finished, a hyper value as search space.
 
+  * algorithms WITHOUT feedback (`needs_feedback` is False: the class does not
+    override the `_feedback` hook, or states the property itself):
+    pg.geno.Random / Sweeping / Deduping(Random) / a `pg.geno.dna_generator`
+    function handed to pg.sample as they are (the window inside
+    `self._num_x += 1` is opened by forced yields between the *instructions*
+    of DNAGenerator.propose/feedback, sys.monitoring), subclasses of them with
+    yielding counters, forwarding wrappers that override the public
+    `feedback()` hook or the `needs_feedback` property and keep their record
+    of the reports the way sequential code does (read, compute, write).  Such
+    an algorithm's own account must show every completed trial exactly once,
+    like that of an algorithm with feedback.  A fourth driver
+    (`drv_algorithms_without_feedback`) runs every kind; the grids of the
+    first driver mix them in (1 scenario in 4).
+  * shared algorithms (and a shared early stopping policy) that are NOT set up
+    when the workers start: the pg.sample call of whichever worker comes first
+    sets them up (a `_setup` of 0 / 3..5 / 20..30 ms) while the others arrive.
+    No worker may see an exception and the counters of the algorithm must
+    account for every trial.
+
 At quiescence the invariants of the statement are checked on
 `pg.poll_result(name)`, the probe's log and the per-worker logs.  Every run
 uses a unique study name.  A failure found by sampling is definite; absence of
@@ -85,6 +104,7 @@ _HOT = frozenset([
     '__init__', 'next', 'next_dna', 'create_trial', 'done', 'skip', '_add_measurement',
     '_complete_trial', 'propose', 'feedback', '_feedback', '_propose', 'get_latest_trial',
     'next_trial_id', '_create_feedback', 'end_loop', '_set_active', '__call__',
+    'setup', '_setup',
 ])
 _EVO_FUNCS = frozenset(['_propose', '_feedback', '_evolve'])
 
@@ -147,6 +167,59 @@ def _make_tracer(r, p_cold, p_hot):
   return tracer
 
 
+class _InstructionYields:
+  """Forced yields between the *instructions* of DNAGenerator.propose/feedback.
+
+  The counters of a search algorithm are kept by `self._num_x += 1` inside
+  these two functions.  For algorithm objects that are handed to pg.sample
+  unmodified (no probe around them) the window between the read and the write
+  of the counter is opened here: adversarial workers (those with `_tls.rng`)
+  sleep with a seeded probability before an instruction of the two functions.
+  Needs sys.monitoring (Python >= 3.12; before that the yielding counter
+  properties of the instrumented subclasses are the only such window).
+  """
+
+  def __init__(self, p=0.12):
+    self.p = p
+    self.tool = None
+    self.codes = [pg.DNAGenerator.propose.__code__, pg.DNAGenerator.feedback.__code__]
+
+  def __enter__(self):
+    mon = getattr(sys, 'monitoring', None)
+    if mon is None:
+      return self
+    for t in (mon.DEBUGGER_ID, 3, 4):
+      if mon.get_tool(t) is None:
+        self.tool = t
+        break
+    if self.tool is None:
+      return self
+    p = self.p
+    sleep = time.sleep
+
+    def before_instruction(code, offset):
+      del code, offset
+      r = getattr(_tls, 'rng', None)
+      if r is not None and getattr(_tls, 'p_instr', 0.0) and r.random() < p:
+        sleep(r.choice(_SLEEPS))
+
+    mon.use_tool_id(self.tool, 'c16-instruction-yields')
+    mon.register_callback(self.tool, mon.events.INSTRUCTION, before_instruction)
+    for c in self.codes:
+      mon.set_local_events(self.tool, c, mon.events.INSTRUCTION)
+    return self
+
+  def __exit__(self, *exc):
+    if self.tool is not None:
+      mon = sys.monitoring
+      for c in self.codes:
+        mon.set_local_events(self.tool, c, 0)
+      mon.register_callback(self.tool, mon.events.INSTRUCTION, None)
+      mon.free_tool_id(self.tool)
+      self.tool = None
+    return False
+
+
 # ---------------------------------------------------------------------------
 # Probe around the search algorithm.
 # ---------------------------------------------------------------------------
@@ -154,22 +227,28 @@ def _make_tracer(r, p_cold, p_hot):
 _serial = itertools.count(1)
 
 
-@pg.members([('inner', pg.typing.Object(pg.DNAGenerator), 'Wrapped algorithm.')])
-class C16Probe(pg.DNAGenerator):
-  """Records proposals/feedbacks; yields inside propose/feedback."""
+def _window():
+  """Window inside the sequential code of an algorithm that is not thread-safe."""
+  r = getattr(_tls, 'rng', None)
+  if r is not None:
+    time.sleep(r.choice((0.0, 2e-4, 1e-3)))
+  else:
+    w = getattr(_tls, 'window', 0.0)
+    if w:
+      time.sleep(w)
 
-  def _setup(self):
-    self.inner.setup(self.dna_spec)
-    self._proposed = []
-    self._fed = []
 
-  @property
-  def multi_objective(self):
-    return self.inner.multi_objective
+class _Instrumented:
+  """Mixin for DNAGenerator subclasses: yielding counters, observable set-up.
 
-  # The counters of DNAGenerator are updated by `self._num_x += 1`.  Reading
-  # and writing them through properties that may yield in between does not
-  # change their meaning; it only widens the window of the read-modify-write.
+  The counters of DNAGenerator are updated by `self._num_x += 1`.  Reading
+  and writing them through properties that may yield in between does not
+  change their meaning; it only widens the window of the read-modify-write.
+  `_setup` takes `_c16_slow_setup` seconds (an algorithm that builds a model)
+  and counts how often it ran.  Nothing here overrides `_feedback`,
+  `feedback` or `needs_feedback`.
+  """
+
   @property
   def _num_proposals(self):
     v = self.__dict__.get('_c16_np', 0)
@@ -190,6 +269,29 @@ class C16Probe(pg.DNAGenerator):
   def _num_feedbacks(self, v):
     self.__dict__['_c16_nf'] = v
 
+  def _setup(self):
+    d = self.__dict__
+    d['_c16_setups'] = d.get('_c16_setups', 0) + 1
+    slow = d.get('_c16_slow_setup', 0.0)
+    if slow:
+      time.sleep(slow)       # (before the state of the algorithm exists)
+    super()._setup()
+
+
+@pg.members([('inner', pg.typing.Object(pg.DNAGenerator), 'Wrapped algorithm.')])
+class _ProbeBase(_Instrumented, pg.DNAGenerator):
+  """Tags every proposal of the wrapped algorithm with a serial number."""
+
+  def _setup(self):
+    super()._setup()
+    self.inner.setup(self.dna_spec)
+    self._proposed = []
+    self._fed = []
+
+  @property
+  def multi_objective(self):
+    return self.inner.multi_objective
+
   def _propose(self):
     chk = getattr(_tls, 'on_propose', None)
     if chk is not None:
@@ -202,6 +304,13 @@ class C16Probe(pg.DNAGenerator):
     _yield_now()
     return d
 
+
+class C16Probe(_ProbeBase):
+  """Records proposals/feedbacks; yields inside propose/feedback.
+
+  Overrides the `_feedback` hook: `needs_feedback` is True.
+  """
+
   def _feedback(self, dna, reward):
     _yield_now()
     self._fed.append((dna.metadata.get('c16'), reward))
@@ -210,10 +319,89 @@ class C16Probe(pg.DNAGenerator):
     _yield_now()
 
 
+class C16HookProbe(_ProbeBase):
+  """A forwarding wrapper that overrides the PUBLIC `feedback()` hook.
+
+  It does not override `_feedback`, so pyglove's `needs_feedback` is False for
+  it.  Like every DNAGenerator it is plain sequential code: its record of the
+  reports is kept by read, compute, write (with a window in between).  Every
+  report handed to it one at a time is in the record.
+  """
+
+  def feedback(self, dna, reward):
+    _yield_now()
+    fed = list(self._fed)
+    _window()
+    fed.append((dna.metadata.get('c16'), reward))
+    self._fed = fed
+    self.inner.feedback(dna, reward)
+    _yield_now()
+    super().feedback(dna, reward)
+
+
+class C16PropertyProbe(_ProbeBase):
+  """A wrapper that states `needs_feedback` itself (the way Deduping does).
+
+  `needs_feedback` is what the wrapped algorithm says; the reports are
+  recorded and forwarded in the public hook (sequential code, see above).
+  """
+
+  @property
+  def needs_feedback(self):
+    return self.inner.needs_feedback
+
+  def feedback(self, dna, reward):
+    fed = list(self._fed)
+    _window()
+    fed.append((dna.metadata.get('c16'), reward))
+    self._fed = fed
+    self.inner.feedback(dna, reward)
+    super().feedback(dna, reward)
+
+  def _feedback(self, dna, reward):
+    pass
+
+
+# pyglove's own feedback-free generators, handed to pg.sample as they are
+# ('plain-*': the window inside the counters comes from _InstructionYields) or
+# as subclasses with yielding counters and a slow `_setup` ('ycount-*').
+class C16Random(_Instrumented, pg.geno.Random):
+  pass
+
+
+class C16Sweeping(_Instrumented, pg.geno.Sweeping):
+  pass
+
+
+class C16Deduping(_Instrumented, pg.geno.Deduping):
+  pass
+
+
+@pg.geno.dna_generator
+def _fn_generator(dna_spec):
+  import random  # pylint: disable=g-import-not-at-top
+  r = random.Random(16)
+  while True:
+    yield pg.random_dna(dna_spec, r)
+
+
 class C16Policy(pg.tuning.EarlyStoppingPolicy):
-  """Stops every third trial once it has a measurement."""
+  """Stops every third trial once it has a measurement.
+
+  Its set-up may take a while (`_c16_slow_setup` seconds); it must not be asked
+  before its set-up has finished.
+  """
+
+  def setup(self, dna_spec):
+    super().setup(dna_spec)
+    slow = self.__dict__.get('_c16_slow_setup', 0.0)
+    if slow:
+      time.sleep(slow)
+    self._c16_ready = True
 
   def should_stop_early(self, trial):
+    if not self.__dict__.get('_c16_ready'):
+      raise RuntimeError('C16Policy asked before its set-up has finished')
     return trial.id % 3 == 0
 
 
@@ -245,11 +433,48 @@ def _slow_identity(dna_list):
   return dna_list
 
 
-_NS = {'pg': pg, 'ev': ev, 'slow': _slow_identity}
+_NS = {'pg': pg, 'ev': ev, 'slow': _slow_identity, 'fn_generator': _fn_generator,
+       'C16Random': C16Random, 'C16Sweeping': C16Sweeping, 'C16Deduping': C16Deduping}
+
+
+_DEDUP_ARGS = "hash_fn=lambda d: hash(tuple(d.to_numbers()))"
+# Algorithms whose `needs_feedback` is False ("algorithms without feedback").
+# (A Sweeping and a Deduping(max_duplicates=1) never propose a DNA twice.)
+_PLAIN = {
+    'plain-random': "pg.geno.Random(seed={seed})",
+    'plain-sweeping': "pg.geno.Sweeping()",
+    'plain-dedup-random': "pg.geno.Deduping(pg.geno.Random(seed={seed}), " + _DEDUP_ARGS + ")",
+    'plain-fn': "fn_generator()",
+    'ycount-random': "C16Random(seed={seed})",
+    'ycount-sweeping': "C16Sweeping()",
+    'ycount-dedup-random': "C16Deduping(pg.geno.Random(seed={seed}), " + _DEDUP_ARGS + ")",
+}
+_DISTINCT_DNA = frozenset(['plain-sweeping', 'plain-dedup-random', 'ycount-sweeping',
+                           'ycount-dedup-random'])
+# (wrappers around an algorithm of _ALGOS, see the probe classes)
+_WRAPPERS = {'hook': 'C16HookProbe', 'prop': 'C16PropertyProbe'}
+_NOFB_KINDS = (
+    'hook-random', 'plain-random', 'ycount-sweeping', 'hook-evo-keep-all', 'plain-dedup-random',
+    'ycount-random', 'prop-random', 'plain-sweeping', 'hook-regevo', 'plain-fn',
+    'ycount-dedup-random')
+_WIDE_SPACE_EXPR = ("pg.dna_spec(pg.Dict(x=pg.oneof([1, 2, 3, 4, 5]), "
+                    "y=pg.oneof(['a', 'b', 'c', 'd', 'e', 'f'])))")
 
 
 def _make_algo(kind, seed):
-  return C16Probe(eval(_ALGOS[kind].format(seed=seed), _NS))  # pylint: disable=eval-used
+  if kind in _PLAIN:
+    return eval(_PLAIN[kind].format(seed=seed), _NS)  # pylint: disable=eval-used
+  cls = C16Probe
+  head = kind.split('-', 1)[0]
+  if head in _WRAPPERS and kind not in _ALGOS:
+    cls = globals()[_WRAPPERS[head]]
+    kind = kind.split('-', 1)[1]
+  return cls(eval(_ALGOS[kind].format(seed=seed), _NS))  # pylint: disable=eval-used
+
+
+def _recording(kind):
+  """Does the algorithm object tag its proposals and record its reports?"""
+  return kind not in _PLAIN
 
 
 # ---------------------------------------------------------------------------
@@ -370,6 +595,7 @@ class _RunLog:
     self.rendezvous = None
     self.stop = False
     self.early_bad = []   # (trial, status) after a done() that had nothing to report
+    self.policy = None    # the early stopping policy, if the workers share one
 
 
 def _worker(cfg, widx, group, leader, algo, space, name, log, evs, start_evt, first_evt, r):
@@ -377,6 +603,7 @@ def _worker(cfg, widx, group, leader, algo, space, name, log, evs, start_evt, fi
     if cfg['trace'] or cfg['probe_yield']:
       _tls.rng = r
       _tls.p_probe = 0.5 if cfg['probe_yield'] else 0.0
+      _tls.p_instr = 1.0
     if cfg['trace']:
       f = r.choice((0.3, 1.0, 2.5))
       sys.settrace(_make_tracer(r, min(0.9, cfg['p_cold'] * f), min(0.9, cfg['p_hot'] * f)))
@@ -414,7 +641,7 @@ def _worker(cfg, widx, group, leader, algo, space, name, log, evs, start_evt, fi
       start_evt.wait()
     racing = _scenario(cfg) == 'co-workers-racing-finishers'
     single = _scenario(cfg) == 'co-workers-single-finisher'
-    policy = C16Policy() if cfg['policy'] else None
+    policy = (log.policy or C16Policy()) if cfg['policy'] else None
     tick = log.tick
     done_n = 0
     last_seen = None
@@ -531,6 +758,7 @@ def _worker(cfg, widx, group, leader, algo, space, name, log, evs, start_evt, fi
   finally:
     sys.settrace(None)
     _tls.rng = None
+    _tls.p_instr = 0.0
     _tls.on_propose = None
     _tls.worker = False
     if first_evt is not None:
@@ -543,15 +771,27 @@ def run_scenario(cfg, seed_tag):
   space = eval(cfg['space'], _NS)  # pylint: disable=eval-used
   w = cfg['W']
   groups = _groups(cfg)
+  dna_spec = space if isinstance(space, pg.DNASpec) else pg.dna_spec(space)
   if cfg['algos'] == 'shared':
-    shared = _make_algo(cfg['algo'], cfg['salt'])
-    # Set up in the main thread: concurrent first callers would otherwise
-    # race on the lazy `algorithm.setup` inside the backend constructor.
-    shared.setup(space if isinstance(space, pg.DNASpec) else pg.dna_spec(space))
-    algos = [shared] * w
+    algos = [_make_algo(cfg['algo'], cfg['salt'])] * w
   else:
     algos = [_make_algo(cfg['algo'], cfg['salt'] + i) for i in range(w)]
+  for a in {id(a): a for a in algos}.values():
+    if cfg.get('slow_setup'):
+      a._c16_slow_setup = cfg['slow_setup']  # pylint: disable=protected-access
+    if cfg.get('presetup', cfg['algos'] == 'shared'):
+      # Set up in the main thread.  With presetup=False the algorithm is set
+      # up by the pg.sample call of whichever worker comes first (the others
+      # arrive while that set-up is going on).
+      a.setup(dna_spec)
   log = _RunLog()
+  if cfg['policy'] and cfg.get('policy_shared'):
+    # one policy object for all workers, set up like the shared algorithm.
+    log.policy = C16Policy()
+    if cfg.get('slow_setup'):
+      log.policy._c16_slow_setup = cfg['slow_setup']  # pylint: disable=protected-access
+    if cfg.get('presetup', True):
+      log.policy.setup(dna_spec)
   if cfg['sync']:
     log.rendezvous = _Rendezvous(w)
   leaders = {}
@@ -602,6 +842,10 @@ def run_scenario(cfg, seed_tag):
 # Invariants at quiescence.  Returns {case_id: (ok, message)}.
 # ---------------------------------------------------------------------------
 
+def _only_formatting_race(errors):
+  return bool(errors) and all('dictionary changed size during iteration' in e[1] for e in errors)
+
+
 def check_run(obs):
   cfg = obs['cfg']
   log = obs['log']
@@ -624,8 +868,22 @@ def check_run(obs):
         f'existed (nothing to report, so it cannot be complete): {log.early_bad[:4]}')
     if log.early_bad:
       return out
-  put(f'worker.no-unexpected-exception/{scen}', not log.errors,
-      f'worker errors: {log.errors[:3]}')
+  uniq = list({id(a): a for a in obs['algos']}.values())
+  # (a shared algorithm that the workers' pg.sample calls set up themselves is
+  # an input class of its own: what goes wrong only there gets its own ids.)
+  lazy = cfg['algos'] == 'shared' and not cfg.get('presetup', True)
+  ssfx = '/shared-algorithm-set-up-by-the-workers' if lazy else ''
+  setups = [a.__dict__.get('_c16_setups') for a in uniq]
+  early_policy = [e for e in log.errors if 'C16Policy asked before' in e[1]]
+  if early_policy:
+    put(f'worker.no-unexpected-exception/{scen}/shared-policy-set-up-by-the-workers', False,
+        f'worker errors: {early_policy[:3]}')
+    return out
+  # (the race of formatting a trial, see above, has nothing to do with who sets
+  # up the algorithm: it keeps the id it has in all scenarios.)
+  esfx = '' if _only_formatting_race(log.errors) else ssfx
+  put(f'worker.no-unexpected-exception/{scen}{esfx}', not log.errors,
+      f'worker errors: {log.errors[:3]}' + (f'; _setup ran {setups} time(s)' if lazy else ''))
   result = obs['result']
   if obs['hung'] or log.errors or result is None:
     if result is None and not obs['hung'] and not log.errors:
@@ -668,10 +926,18 @@ def check_run(obs):
     put('end_loop.result-inactive', not result.is_active, 'result.is_active after end_loop()')
   put('trials.ids-1..N-each-once', sorted(ids) == list(range(1, len(ids) + 1)),
       f'trial ids {ids}')
-  put('trials.distinct-dna-proposals',
-      len({t.dna.metadata.get('c16') for t in trials}) == len(trials),
-      'two trials share one proposal of the algorithm: '
-      f'{[t.dna.metadata.get("c16") for t in trials]}')
+  recording = _recording(cfg['algo'])
+  if recording:
+    put('trials.distinct-dna-proposals',
+        len({t.dna.metadata.get('c16') for t in trials}) == len(trials),
+        'two trials share one proposal of the algorithm: '
+        f'{[t.dna.metadata.get("c16") for t in trials]}')
+  elif cfg['algo'] in _DISTINCT_DNA and len(uniq) == 1:
+    # (a sweep / a deduping generator proposes every point once: the same DNA
+    # in two trials is one proposal handed out twice.)
+    dnas = [tuple(t.dna.to_numbers()) for t in trials]
+    put('trials.distinct-dna-proposals', len(set(dnas)) == len(dnas),
+        f'two trials share one proposal of {cfg["algo"]}, which never proposes a DNA twice: {dnas}')
   # --- delivery --------------------------------------------------------------
   groups = obs['groups']
   delivered = {}
@@ -714,9 +980,16 @@ def check_run(obs):
     return out    # the extra trial has no finisher: later checks are consequences
   # --- expected completion per trial -------------------------------------------
   fed = {}
-  for a in {id(a): a for a in obs['algos']}.values():
-    for s, rwd in list(a._fed):  # pylint: disable=protected-access
+  for a in uniq:
+    for s, rwd in list(getattr(a, '_fed', None) or []):
       fed.setdefault(s, []).append(rwd)
+  try:
+    nofb = not any(a.needs_feedback for a in uniq)
+  except Exception:  # pylint: disable=broad-except
+    nofb = False
+  # (ids of the algorithm's account for algorithms "without feedback", i.e.
+  # whose needs_feedback is False, and for algorithms set up by the workers)
+  asfx = ('/needs_feedback=False' if nofb else '') + ssfx
   summary = ast.literal_eval(result.format(compact=True))
   m = len(trials)
   infeasible_n = sum(1 for t in trials if t.infeasible)
@@ -765,7 +1038,7 @@ def check_run(obs):
       else:
         want_inf = skips.pop()
       want_fb = [] if want_inf else [_reward(cfg, t.id)]
-    if got != want_fb:
+    if recording and got != want_fb:
       wrong_fb.append((t.id, got, want_fb))
     fm = t.final_measurement
     if (t.infeasible != want_inf or fm is None
@@ -773,24 +1046,33 @@ def check_run(obs):
       wrong_state.append((t.id, t.infeasible, fm and fm.reward))
     if not want_inf:
       done_ids.append(t.id)
-  put('feedback.exactly-once-with-final-reward', not wrong_fb,
-      f'(trial, rewards fed back to the algorithm, expected): {wrong_fb[:5]}')
+  if recording:
+    put(f'feedback.exactly-once-with-final-reward{asfx}', not wrong_fb,
+        f'(trial, rewards in the algorithm\'s record of its reports, expected): {wrong_fb[:5]}')
   put('bookkeeping.trial-outcome', not wrong_state,
       f'(trial, infeasible, final reward) inconsistent with what the worker did: {wrong_state[:5]}')
-  uniq = list({id(a): a for a in obs['algos']}.values())
-  np_ = sum(a.num_proposals for a in uniq)
-  nf_ = sum(a.num_feedbacks for a in uniq)
-  inp = sum(a.inner.num_proposals for a in uniq)
-  inf_ = sum(a.inner.num_feedbacks for a in uniq)
-  put('algorithm.num_proposals-counter', np_ == m and (inp == m or cfg['algo'] == 'dedup-auto'),
-      f'algorithm.num_proposals={np_} (wrapped algorithm: {inp}), trials={m}')
-  put('algorithm.num_feedbacks-counter', nf_ == len(done_ids) and inf_ == len(done_ids),
-      f'algorithm.num_feedbacks={nf_} (wrapped algorithm: {inf_}), but {len(done_ids)} trials '
-      'were completed with a reward and each was fed back exactly once')
-  if cfg['algo'] == 'evo-keep-all':
+  def count(objs, attr):
+    try:
+      return sum(getattr(a, attr) for a in objs)
+    except Exception as e:  # pylint: disable=broad-except
+      return f'<{type(e).__name__}: {e}>'
+
+  inners = [a.inner for a in uniq if hasattr(a, 'inner')]
+  np_, nf_ = count(uniq, 'num_proposals'), count(uniq, 'num_feedbacks')
+  inp, inf_ = count(inners, 'num_proposals'), count(inners, 'num_feedbacks')
+  put(f'algorithm.num_proposals-counter{asfx}',
+      np_ == m and (not inners or inp == m or cfg['algo'] == 'dedup-auto'),
+      f'algorithm.num_proposals={np_} (wrapped algorithm: {inp if inners else None}), trials={m}'
+      + (f'; _setup ran {setups} time(s)' if lazy else ''))
+  put(f'algorithm.num_feedbacks-counter{asfx}',
+      nf_ == len(done_ids) and (not inners or inf_ == len(done_ids)),
+      f'algorithm.num_feedbacks={nf_} (wrapped algorithm: {inf_ if inners else None}), but '
+      f'{len(done_ids)} trials were completed with a reward and each is reported exactly once'
+      + (f'; _setup ran {setups} time(s)' if lazy else ''))
+  if cfg['algo'].endswith('evo-keep-all'):
     pop = sorted(d.metadata.get('c16') for a in uniq for d in a.inner.population)
     want_pop = sorted(t.dna.metadata.get('c16') for t in trials if t.id in done_ids)
-    put('algorithm.population-has-every-feedback', pop == want_pop,
+    put(f'algorithm.population-has-every-feedback{asfx}', pop == want_pop,
         f'population of an Evolution that keeps everything holds proposals {pop}, '
         f'fed back were {want_pop}')
   # --- best trial ----------------------------------------------------------------
@@ -876,8 +1158,26 @@ def _scenarios(tier, seed):
           g2 = None
 
 
+def _vary_algorithm(cfg, r2):
+  """Algorithms without feedback and shared algorithms set up by the workers.
+
+  (Drawn from a generator of its own, so that the other features of the
+  scenarios of a seed stay what they were.)
+  """
+  u, kind, v = r2.random(), r2.choice(_NOFB_KINDS), r2.random()
+  slow = r2.choice((0.0, 0.003, 0.02))
+  if u < 0.25 and cfg['algo'] != 'dedup-auto' and cfg['space'] == _SPACE_EXPR:
+    cfg['algo'] = kind
+    cfg['space'] = _WIDE_SPACE_EXPR
+  if v < 0.2 and cfg['algos'] == 'shared':
+    cfg['presetup'] = False
+    cfg['slow_setup'] = slow
+    cfg['policy_shared'] = True
+
+
 def _grid1(tier, seed):
   r = rng(seed, 'c16-scenarios')
+  r2 = rng(seed, 'c16-scenarios-algorithms')
   quick = tier == 'quick'
   k = 0
   for w in range(2, 9):
@@ -909,6 +1209,7 @@ def _grid1(tier, seed):
             # all workers finish their trials at the same moment
             sync=(lay != 'pairs-single' and not brk and r.random() < 0.4),
             salt=r.randrange(1000))
+        _vary_algorithm(cfg, r2)
         if quick and (k + seed) % _QUICK_STRIDE != 0:
           continue
         yield cfg, (1 if quick else 2)
@@ -936,6 +1237,7 @@ _QUICK_STRIDE2 = 5
 
 def _grid2(tier, seed):
   r = rng(seed, 'c16-scenarios-grid2')
+  r2 = rng(seed, 'c16-scenarios-grid2-algorithms')
   quick = tier == 'quick'
   k = 0
   for w in (2, 3, 4, 5, 6, 8):
@@ -974,6 +1276,7 @@ def _grid2(tier, seed):
             rewards=r.choice(('mod5', 'negative', 'increasing')),
             sync=(lay != 'pairs-single' and not brk and r.random() < 0.3),
             salt=r.randrange(1000), gids=gids, feature=feat)
+        _vary_algorithm(cfg, r2)
         if quick and (k + seed) % _QUICK_STRIDE2 != 0:
           continue
         yield cfg, (1 if quick else 2)
@@ -990,10 +1293,11 @@ def witness(cfg, case_id, repeats=150):
   old = sys.getswitchinterval()
   sys.setswitchinterval(1e-6)
   try:
-    for i in range(repeats):
-      res = check_run(run_scenario(cfg, f'w{i}'))
-      if case_id in res and not res[case_id][0]:
-        raise AssertionError(f'{case_id} (repeat {i}): {res[case_id][1]}')
+    with _InstructionYields():
+      for i in range(repeats):
+        res = check_run(run_scenario(cfg, f'w{i}'))
+        if case_id in res and not res[case_id][0]:
+          raise AssertionError(f'{case_id} (repeat {i}): {res[case_id][1]}')
   finally:
     sys.setswitchinterval(old)
 
@@ -1010,7 +1314,9 @@ def drv_concurrent_sampling(tier, seed):
              'pairs (single finisher, racing finishers, done-vs-skip races), one group, mixed; '
              'algorithms Random(seed), regularized_evolution, an Evolution that keeps its whole population, '
              'Deduping(hill_climb, auto_reward_fn); '
-             'shared (set up beforehand) or one per worker; staggered and barrier-released starts; optional '
+             'in 1 grid scenario of 4 an algorithm whose needs_feedback is False instead (see the fourth driver); '
+             'shared (set up beforehand; in 1 grid scenario of 5 by the workers, _setup 0 / 3 / 20 ms) or one per '
+             'worker; staggered and barrier-released starts; optional '
              'rendezvous so that all workers finish their trials at the same moment; 5 such pressure '
              'scenarios always (5 resp. 8 runs each; 12 resp. 30 of the one with decreasing rewards); '
              + (f'quick: 1 run of every {_QUICK_STRIDE}th scenario of the grid W x mix x layout (offset by seed)'
@@ -1027,16 +1333,104 @@ def drv_concurrent_sampling(tier, seed):
   t0 = time.time()
   budget = 55.0 if tier == 'quick' else 560.0
   try:
-    for si, (cfg, reps) in enumerate(_scenarios(tier, seed)):
-      for rep in range(reps):
-        if time.time() - t0 > budget:
-          break
-        obs = run_scenario(cfg, f'{seed}-{si}-{rep}')
-        res = check_run(obs)
-        key = (si, rep, cfg['W'], cfg['N'], cfg['layout'], cfg['actions'], cfg['algo'],
-               cfg['start'], cfg['trace'])
-        for cid, (ok, msg) in res.items():
-          rec.case(cid, key, ok, msg, _witness(cfg, cid))
+    with _InstructionYields():
+      for si, (cfg, reps) in enumerate(_scenarios(tier, seed)):
+        for rep in range(reps):
+          if time.time() - t0 > budget:
+            break
+          obs = run_scenario(cfg, f'{seed}-{si}-{rep}')
+          res = check_run(obs)
+          key = (si, rep, cfg['W'], cfg['N'], cfg['layout'], cfg['actions'], cfg['algo'],
+                 cfg['start'], cfg['trace'], cfg.get('presetup', True))
+          for cid, (ok, msg) in res.items():
+            rec.case(cid, key, ok, msg, _witness(cfg, cid))
+  finally:
+    sys.setswitchinterval(old)
+  return rec.result()
+
+
+# ---------------------------------------------------------------------------
+# Algorithms without feedback; shared algorithms set up by the workers.
+# ---------------------------------------------------------------------------
+
+_LAZY_KINDS = ('random', 'regevo', 'evo-keep-all', 'dedup-auto') + _NOFB_KINDS
+
+
+def _nofb_scenarios(tier, seed):
+  """Yields (cfg, repeats)."""
+  quick = tier == 'quick'
+  r = rng(seed, 'c16-nofb')
+  base = dict(algos='shared', probe_yield=True, p_cold=0.03, p_hot=0.3, space=_WIDE_SPACE_EXPR)
+  mixes = [_MIXES[0], _MIXES[0], _MIXES[1], _MIXES[2], _MIXES[5], _MIXES[4]]
+  # (a) every kind of algorithm whose needs_feedback is False, shared by
+  # workers that (mostly) finish their trials at the same moment.
+  for i, kind in enumerate(_NOFB_KINDS):
+    for j in range(2 if quick else 6):
+      w = 2 + (i + seed + 3 * j) % 7
+      lay = r.choice(_SOLO + ['pairs-racing', 'one-racing', 'mixed-racing' if w >= 4 else 'ints'])
+      acts, policy, endl, brk = mixes[(i + j + seed) % len(mixes)]
+      n = min(28, 2 * w + r.randrange(0, 4))
+      yield dict(
+          base, W=w, N=n, layout=lay, actions=acts, policy=policy,
+          end_at=(max(1, n - r.randrange(1, 4)) if endl else None),
+          breakers=({k: 1 + r.randrange(2) for k in range(1, w, 2)} if brk else {}),
+          algo=kind, start=r.choice(('staggered', 'staggered', 'simultaneous')),
+          policy_shared=(j % 2 == 0), trace=(r.random() < 0.5), rewards=r.choice(('mod5', 'negative', 'increasing', 'decreasing')),
+          sync=(not brk and r.random() < 0.8), salt=r.randrange(1000)), (1 if quick else 2)
+  # (b) a shared algorithm of every kind that is NOT set up when the workers
+  # start: the pg.sample call of whichever worker comes first sets it up, the
+  # others arrive meanwhile; `_setup` takes 0 / 5 / 30 ms.
+  for i, kind in enumerate(_LAZY_KINDS):
+    for j in range(1 if quick else 4):
+      w = 2 + (2 * i + seed + 3 * j) % 7
+      lay = r.choice(_SOLO + ['pairs-racing'])
+      if kind != 'dedup-auto':
+        lay = r.choice([lay, 'one-racing', 'mixed-racing' if w >= 4 else 'names'])
+      acts, policy, endl, brk = mixes[(i + j + seed) % 4]
+      n = min(28, w + r.randrange(0, 6))
+      yield dict(
+          base, W=w, N=n, layout=lay, actions=acts, policy=policy, end_at=None, breakers={},
+          algo=kind, space=(_SMALL_SPACE_EXPR if kind == 'dedup-auto' else _WIDE_SPACE_EXPR),
+          start=('staggered' if (i + j + seed) % 5 == 4 else 'simultaneous'),
+          presetup=False, slow_setup=(0.0, 0.005, 0.03)[(i + j + seed) % 3], policy_shared=True,
+          trace=(r.random() < 0.6), rewards=r.choice(('mod5', 'negative', 'increasing')),
+          sync=(r.random() < 0.3), salt=r.randrange(1000)), (1 if quick else 2)
+
+
+def drv_algorithms_without_feedback(tier, seed):
+  rec = Recorder(
+      'C16', 'concurrent pg.sample: algorithms without feedback, algorithms set up by the workers '
+      '(stress sampling of schedules)',
+      scope=('STRESS SAMPLING OF THREAD SCHEDULES, NOT ENUMERATION (same workers, yields and invariants as '
+             'the first driver). (a) one shared algorithm whose needs_feedback is False, of every kind: '
+             'pg.geno.Random / Sweeping / Deduping(Random) / a pg.geno.dna_generator function as they are '
+             '(forced yields between the instructions of DNAGenerator.propose/feedback via sys.monitoring), '
+             'subclasses of the first three with yielding counters, a forwarding wrapper that overrides the '
+             'public feedback() hook (around Random, regularized_evolution, an Evolution that keeps '
+             'everything) and one that overrides the needs_feedback property; their records are plain '
+             'sequential code (read, compute, write); W = 2..8, N = 2W..2W+3, solo and racing layouts, '
+             '6 mixes of done/skip/policy/break/end_loop, workers mostly finishing at the same moment; '
+             + ('quick: 2 seeded scenarios per kind' if tier == 'quick' else 'thorough: 6 x 2 runs per kind')
+             + '. (b) one shared algorithm of every kind (with and without feedback) that is not set up '
+             'when the workers start (nor is the early stopping policy they share, where the mix has one), '
+             '_setup taking 0 / 5 / 30 ms, barrier-released (4 of 5) or staggered starts; ' + ('quick: 1 scenario per kind' if tier == 'quick' else 'thorough: 4 x 2 runs per kind')
+             + '. A failure is definite; absence of failures is evidence only.'))
+  old = sys.getswitchinterval()
+  sys.setswitchinterval(1e-6)
+  t0 = time.time()
+  budget = 40.0 if tier == 'quick' else 400.0
+  try:
+    with _InstructionYields():
+      for si, (cfg, reps) in enumerate(_nofb_scenarios(tier, seed)):
+        for rep in range(reps):
+          if time.time() - t0 > budget:
+            break
+          obs = run_scenario(cfg, f'{seed}-nf{si}-{rep}')
+          res = check_run(obs)
+          key = (si, rep, cfg['W'], cfg['N'], cfg['layout'], cfg['actions'], cfg['algo'],
+                 cfg['start'], cfg['trace'], cfg.get('presetup', True), cfg.get('slow_setup'))
+          for cid, (ok, msg) in res.items():
+            rec.case(cid, key, ok, msg, _witness(cfg, cid))
   finally:
     sys.setswitchinterval(old)
   return rec.result()
@@ -1057,13 +1451,17 @@ _BARRIER_SECS = 20.0
 def _fed_by_serial(probes):
   fed = {}
   for a in {id(a): a for a in probes}.values():
-    for s, rwd in list(a._fed):  # pylint: disable=protected-access
+    for s, rwd in list(getattr(a, '_fed', None) or []):
       fed.setdefault(s, []).append(rwd)
   return fed
 
 
-def _check_books(put, prefix, result, probes, outcome):
-  """Quiescence invariants of the statement; `outcome`: trial id -> ('ok', r) | ('skip',)."""
+def _check_books(put, prefix, result, probes, outcome, asfx=''):
+  """Quiescence invariants of the statement; `outcome`: trial id -> ('ok', r) | ('skip',).
+
+  `asfx`: suffix of the ids about the algorithm's account of its reports (the
+  class of the algorithm: without feedback, set up by the workers).
+  """
   trials = list(result.trials)
   m = len(trials)
   ids = [t.id for t in trials]
@@ -1093,8 +1491,9 @@ def _check_books(put, prefix, result, probes, outcome):
       wrong_fb.append((t.id, got, o))
   put(f'{prefix}/trial-outcome', not wrong_state,
       f'(trial, status, infeasible, final reward, what the workers did): {wrong_state[:4]}')
-  put(f'{prefix}/feedback-exactly-once-with-final-reward', not wrong_fb,
-      f'(trial, rewards fed back to the algorithm, what the workers did): {wrong_fb[:4]}')
+  put(f'{prefix}/feedback-exactly-once-with-final-reward{asfx}', not wrong_fb,
+      f'(trial, rewards in the algorithm\'s record of its reports, what the workers did): '
+      f'{wrong_fb[:4]}')
   summary = ast.literal_eval(result.format(compact=True))
   inf_n = sum(1 for t in trials if t.infeasible)
   put(f'{prefix}/status-counts',
@@ -1106,9 +1505,12 @@ def _check_books(put, prefix, result, probes, outcome):
       f'summary infeasible {summary.get("infeasible")}, infeasible trials {inf_n}/{m}')
   uniq = list({id(a): a for a in probes}.values())
   n_ok = sum(1 for t in trials if outcome.get(t.id, ('skip',))[0] == 'ok')
-  np_ = sum(a.num_proposals for a in uniq)
-  nf_ = sum(a.num_feedbacks for a in uniq)
-  put(f'{prefix}/algorithm-counters', np_ == m and nf_ == n_ok,
+  try:
+    np_ = sum(a.num_proposals for a in uniq)
+    nf_ = sum(a.num_feedbacks for a in uniq)
+  except Exception as e:  # pylint: disable=broad-except
+    np_ = nf_ = f'<{type(e).__name__}: {e}>'
+  put(f'{prefix}/algorithm-counters{asfx}', np_ == m and nf_ == n_ok,
       f'algorithm.num_proposals={np_} (trials: {m}), num_feedbacks={nf_} '
       f'(trials completed with a reward: {n_ok})')
   best = result.best_trial
@@ -1158,6 +1560,7 @@ def _ls_worker(spec, widx, g, k, kk, name, algo, space, shared):
   barrier, rec, outcome, errors = (shared['barrier'], shared['rec'], shared['outcome'],
                                    shared['errors'])
   try:
+    _tls.window = 2e-3      # (inside the sequential code of the probes' public hooks)
     kw = dict(spec['kw'])
 
     def loop():
@@ -1246,8 +1649,11 @@ def run_lockstep(spec, tag):
   """Runs one lock-step scenario; returns {case_id: (ok, message)}."""
   name = f'c16ls-{os.getpid()}-{next(_run_counter)}-{tag}-{spec["name"]}'
   space = eval(spec['space'], _NS)  # pylint: disable=eval-used
-  algo = _make_algo('random', spec['salt'])
-  algo.setup(space if isinstance(space, pg.DNASpec) else pg.dna_spec(space))
+  algo = _make_algo(spec.get('algo', 'random'), spec['salt'])
+  if spec.get('slow_setup'):
+    algo._c16_slow_setup = spec['slow_setup']  # pylint: disable=protected-access
+  if spec.get('presetup', True):
+    algo.setup(space if isinstance(space, pg.DNASpec) else pg.dna_spec(space))
   members = []          # (group id, co-worker index, co-workers in the group)
   for g in spec['gids']:
     members.extend((g, k, spec['K']) for k in range(spec['K']))
@@ -1275,9 +1681,16 @@ def run_lockstep(spec, tag):
   try:
     result = pg.poll_result(name)
   except ValueError:
-    put('worker.no-unexpected-exception/lock-step', not shared['errors'],
-        f'worker errors: {shared["errors"][:3]}')
+    put('worker.no-unexpected-exception/lock-step'
+        + ('' if spec.get('presetup', True) else '/shared-algorithm-set-up-by-the-workers'),
+        not shared['errors'], f'worker errors: {shared["errors"][:3]}')
     put('result.poll/lock-step', False, f'pg.poll_result({name!r}) does not know the study')
+    return out
+  ssfx = '' if spec.get('presetup', True) else '/shared-algorithm-set-up-by-the-workers'
+  if ssfx and shared['errors'] and not _only_formatting_race(shared['errors']):
+    # (a worker that fails on entry breaks the barriers: the rest follows from it)
+    put(f'worker.no-unexpected-exception/lock-step{ssfx}', False,
+        f'worker errors: {shared["errors"][:3]}; _setup ran {algo.__dict__.get("_c16_setups")} time(s)')
     return out
   rec = shared['rec']
   gkey = [g if g is not None else ('thread', i) for i, (g, _, _) in enumerate(members)]
@@ -1337,17 +1750,38 @@ def run_lockstep(spec, tag):
       '; '.join(n[1] for n in shared['notes'][:2]))
   if shared['notes']:
     return out
-  put('worker.no-unexpected-exception/lock-step', not shared['errors'],
+  put('worker.no-unexpected-exception/lock-step'
+      + ('' if _only_formatting_race(shared['errors']) else ssfx), not shared['errors'],
       f'worker errors: {shared["errors"][:3]}')
   if shared['errors']:
     return out
   put(f'trials.count/lock-step/requested={ncls}', len(result.trials) == want_n,
       f'{len(result.trials)} trials created; requested {spec["N"]}, the workers asked for {demand}')
-  _check_books(put, 'books/lock-step', result, [algo], shared['outcome'])
+  try:
+    nofb = not algo.needs_feedback
+  except Exception:  # pylint: disable=broad-except
+    nofb = False
+  _check_books(put, 'books/lock-step', result, [algo], shared['outcome'],
+               asfx=('/needs_feedback=False' if nofb else '') + ssfx)
   return out
 
 
+_LS_ALGOS = ('random', 'hook-random', 'prop-random', 'prop-regevo', 'hook-regevo', 'hook-random')
+
+
 def _lockstep_specs(tier, seed):
+  """Specs; the algorithm and who sets it up alternate over the specs."""
+  for i, spec in enumerate(_lockstep_specs0(tier, seed)):
+    j = i + seed
+    spec['algo'] = _LS_ALGOS[j % len(_LS_ALGOS)]
+    if j % 3 == 1:
+      # the workers' pg.sample calls (all at the same moment) set it up.
+      spec['presetup'] = False
+      spec['slow_setup'] = (0.0, 0.005, 0.03)[(j // 3) % 3]
+    yield spec
+
+
+def _lockstep_specs0(tier, seed):
   r = rng(seed, 'c16-lockstep')
   for pool in sorted(_LS_GIDS):
     for kk, ng in ((1, 2), (2, 1), (2, 2), (1, 3), (2, 3), (3, 2)) + (
@@ -1397,12 +1831,20 @@ def drv_lockstep_groups(tier, seed):
              'co-workers at once) or, in some rounds, nobody does (the trial must be handed out again); '
              'N ample, exactly the demand, less, 1, 0; rewards positive or 0.0 and negative; odd study names; hyper value or DNASpec as space; '
              'default and explicit in-memory backend; workers that leave the loop and re-enter it; '
+             'the shared algorithm alternates over the specs between a probe with a _feedback hook and '
+             'forwarding wrappers whose needs_feedback is False (public feedback() hook overridden, around '
+             'Random and regularized_evolution; needs_feedback property overridden, around Random: False, '
+             'around regularized_evolution: True), whose record of the '
+             'reports is plain sequential code with a 2 ms window (groups finish at the same moment); in every '
+             'third spec the algorithm is set up by the pg.sample calls of the workers, which all start at '
+             'the same moment (_setup takes 0 / 5 / 30 ms); '
              + ('quick: 1 seeded draw per (pool, co-workers, groups)' if tier == 'quick'
                 else 'thorough: 4 seeded draws per (pool, co-workers, groups)')))
   for si, spec in enumerate(_lockstep_specs(tier, seed)):
     res = run_lockstep(spec, f'{seed}-{si}')
     key = (si, spec['pool'], spec['K'], len(spec['gids']), spec['solos'], spec['N'],
-           tuple(spec['finish']), spec['reenter'], spec['name'])
+           tuple(spec['finish']), spec['reenter'], spec['name'], spec['algo'],
+           spec.get('presetup', True))
     for cid, (ok, msg) in res.items():
       rec.case(cid, key, ok, msg, _ls_witness(spec, cid))
   return rec.result()
@@ -1505,6 +1947,9 @@ def _seq_sequences(tier, seed):
   return [tuple(q) + _SEQ_CLOSE for q in seqs]
 
 
+_SEQ_ALGO = {'solo': 'random', 'alternate-0': 'hook-random', 'alternate-1': 'random'}
+
+
 def run_sequences(seqs, mode, tag, group=None):
   """One named loop with one trial per sequence.
 
@@ -1515,8 +1960,11 @@ def run_sequences(seqs, mode, tag, group=None):
   """
   name = f'c16seq-{os.getpid()}-{next(_run_counter)}-{tag}'
   space = eval(_SMALL_SPACE_EXPR, _NS)  # pylint: disable=eval-used
-  algo = _make_algo('random', 7)
+  # (alternate-0: an algorithm whose needs_feedback is False -- a forwarding
+  # wrapper that overrides the public feedback() hook)
+  algo = _make_algo(_SEQ_ALGO.get(mode, 'random'), 7)
   algo.setup(space)
+  asfx = '' if algo.needs_feedback else '/needs_feedback=False'
   nw = 1 if mode == 'solo' else 2
   phase = 1 if mode.endswith('1') else 0
   barrier = threading.Barrier(nw, timeout=_BARRIER_SECS)
@@ -1561,7 +2009,7 @@ def run_sequences(seqs, mode, tag, group=None):
          + ('infeasible' if want_inf else f'reward {outcome[1]}')
          + f' (exceptions: {[type(e).__name__ if e else None for e in raised]})')
     fed = _fed_by_serial([algo]).get(trial.dna.metadata.get('c16'), [])
-    note(f'{pre}/reported-to-the-algorithm-exactly-once', key,
+    note(f'{pre}/reported-to-the-algorithm-exactly-once{asfx}', key,
          fed == ([] if want_inf else [outcome[1]]),
          f'{ops} on trial {tid}: rewards fed back {fed}, expected '
          f'{[] if want_inf else [outcome[1]]}')
@@ -1690,7 +2138,8 @@ def drv_finish_sequences(tier, seed):
              '(thorough: 0..4) over {add_measurement, done, skip, invalid add_measurement (no reward / metric '
              'only / two rewards), feedback(reward), exception inside skip_on_exceptions}, each followed by '
              'a proper finish (add_measurement; done); modes: one worker / two co-workers of a group that '
-             'execute the operations alternately (either one first), separated by barriers; after every '
+             'execute the operations alternately (either one first; in one of the two modes the algorithm is '
+             'a forwarding wrapper whose needs_feedback is False), separated by barriers; after every '
              'trial (a quiescent point) the trial, the feedback log of the algorithm, the counts of the '
              'result and the best trial are compared with the outcome of the first operation that can '
              'complete the trial (done() without a measurement cannot: there is nothing to report)'))
@@ -1702,7 +2151,8 @@ def drv_finish_sequences(tier, seed):
   return rec.result()
 
 
-DRIVERS = [drv_concurrent_sampling, drv_lockstep_groups, drv_finish_sequences]
+DRIVERS = [drv_concurrent_sampling, drv_lockstep_groups, drv_finish_sequences,
+           drv_algorithms_without_feedback]
 
 
 def replay(rec):
